@@ -15,4 +15,9 @@ def run(tier, seed):
         res.add(lexreplay.attach(run_functions(LX.C17_FUNCTIONS, "C17/smt", tier)))
     except ImportError:
         res.assumptions.append("lexer layout contracts (SMT) not built; layout independence rests on the FX lexer-layout-only-state obligations")
+    from props import ppline
+    pl = ppline.obligations(tier)
+    for o in pl.obs:
+        o.name = "C17/" + o.name
+    res.add(pl)
     return res
